@@ -65,15 +65,15 @@ var locals = []localCfg{
 }
 
 type openSpec struct {
-	AS    string  `json:"as"`    // cfg | other | trans
-	Cap65 string  `json:"cap65"` // none | cfg | other
-	ID    string  `json:"id"`    // zero | ours | other
-	Hold  uint16  `json:"hold"`
-	APv4  uint8   `json:"ap_v4"` // 0 none, 1 receive, 2 send, 3 both
-	APv6  uint8   `json:"ap_v6"`
-	MPv4  bool    `json:"mp_v4"`
-	MPv6  bool    `json:"mp_v6"`
-	Roles []int   `json:"roles"` // RFC 9234 capability values, 0…2 of them
+	AS    string `json:"as"`    // cfg | other | trans
+	Cap65 string `json:"cap65"` // none | cfg | other
+	ID    string `json:"id"`    // zero | ours | other
+	Hold  uint16 `json:"hold"`
+	APv4  uint8  `json:"ap_v4"` // 0 none, 1 receive, 2 send, 3 both
+	APv6  uint8  `json:"ap_v6"`
+	MPv4  bool   `json:"mp_v4"`
+	MPv6  bool   `json:"mp_v6"`
+	Roles []int  `json:"roles"` // RFC 9234 capability values, 0…2 of them
 }
 
 type ccase struct {
@@ -142,11 +142,11 @@ func (o openSpec) build(l localCfg) *wire.Open {
 
 // verdict of the reference predicate
 type verdict struct {
-	Accept  bool     // must establish
-	Reject  bool     // must not establish
-	Why     []string // failed (or, for the AS, possibly failed) conditions in a fixed order: identifier-zero, identifier-ours, as, role, hold-time
+	Accept   bool     // must establish
+	Reject   bool     // must not establish
+	Why      []string // failed (or, for the AS, possibly failed) conditions in a fixed order: identifier-zero, identifier-ours, as, role, hold-time
 	Definite []string // the conditions that fail for certain
-	Allowed []uint8  // NOTIFICATION 2/x subcodes that name one of the failed conditions
+	Allowed  []uint8  // NOTIFICATION 2/x subcodes that name one of the failed conditions
 }
 
 // predicate is the statement, literally: resolved peer AS = configured; identifier ≠ 0 and (eBGP or
@@ -384,7 +384,11 @@ func runCaseOnce(idx int, raw json.RawMessage) (res batch.Result, stalled bool) 
 	neg := speaker.Negotiate(sut, my)
 	wantHold := time.Duration(neg.HoldTime) * time.Second
 	if info.HoldTime != wantHold {
-		res.Add("negotiated-hold", vf.F("offered_by_peer", my.HoldTime, "offered_by_biord", sut.HoldTime),
+		rel := "smaller-than-min"
+		if info.HoldTime > wantHold {
+			rel = "greater-than-min"
+		}
+		res.Add("negotiated-hold", vf.F("got", rel),
 			"%s: bio-rd offered %d, peer offered %d, negotiated hold time is %v, want %v", desc, sut.HoldTime, my.HoldTime, info.HoldTime, wantHold)
 	}
 	flag := func(name string, v4 bool, got, want bool) {
